@@ -194,6 +194,9 @@ def generate(seed: int, tier: str) -> Dict[str, Any]:
     if "quality_trace" in names:
         raw["t2"]["quality"] = {"enabled": False, "shadow": True}
         raw["perf"] = {"enabled": True, "metrics": {"report_memory": True}}
+    elif r.chance(0.35):
+        # the metrics gate open: the T2 record then also carries the quality layers' own gauges (fusion mode, lexical hits, MMR picks)
+        raw["perf"] = {"enabled": True, "metrics": {"report_memory": True}}
     ro = rng.stream("ops")
     agents = sorted(world["agents"])
     ops = [{"op": "turn", "agent": ro.choice(agents), "text": E.gen_text(ro), "turn_id": i, "now_ms": E.T0_MS + 1000 * i, "reflect": True}
@@ -213,10 +216,10 @@ def _twin_cfg(raw: Dict[str, Any], faults: List[Dict[str, Any]]) -> Dict[str, An
         raw["t3"]["backend"] = "rulebased"
     if "rerank_with_gel" in names:
         raw["t2"]["hybrid"] = {"enabled": False}
-    if "fuse" in names and isinstance(raw["t2"].get("quality"), dict):
-        raw["t2"]["quality"] = dict(raw["t2"]["quality"], enabled=False)  # the quality gate off, subtree kept
+    # ("fuse" has no switch of its own: its twin is the same call handing its input back, see _run)
     if "mmr" in names and isinstance(raw["t2"].get("quality"), dict):
-        raw["t2"]["quality"] = dict(raw["t2"]["quality"], mmr={"enabled": False})
+        # the MMR switch off, its subtree kept (the T2 record echoes mmr.lambda whenever the quality layer is on)
+        raw["t2"]["quality"] = dict(raw["t2"]["quality"], mmr=dict(raw["t2"]["quality"].get("mmr") or {}, enabled=False))
     if "quality_trace" in names:
         raw["t2"]["quality"] = {"enabled": False, "shadow": False}
     if "invalidate" in names:
@@ -274,7 +277,8 @@ def _run(program: Dict[str, Any], faulty: bool) -> Dict[str, Any]:
             core.load_latest_snapshot = loader_spy
             # observation and decay have no switch of their own: their twin is the same call doing nothing
             spec = [f for f in faults if f["site"] in REGISTRY] if faulty else \
-                [dict(f, idle=True) for f in faults if f["site"] in ("gel_observe", "gel_tick")]
+                [dict(f, idle=True) for f in faults if f["site"] in ("gel_observe", "gel_tick")] + \
+                [dict(f, idle=True, idle_call=lambda q, items, cfg=None: (items, {})) for f in faults if f["site"] == "fuse"]
             try:
                 with Sites(REGISTRY, spec) as sites:
                     for op in program["ops"]:
@@ -369,6 +373,24 @@ def _execute(program: Dict[str, Any]) -> Dict[str, Any]:
             violations.append({"cls": "turn-aborted", "sig": "%s|no-result" % tag, "detail": "a turn returned no TurnResult"})
         boot_loaded = any(x == "loaded" for x in a["boot"])
         stats["boot_" + (a["boot"][0] if a["boot"] else "none").split(":")[0]] = 1
+        if "fuse" in names:
+            # the twin of a failing fusion hands the candidates back unchanged and so still counts as "fusion applied": the two
+            # fields that merely echo the fusion CONFIGURATION in that case are not compared (every measured field is)
+            def _strip(text: str) -> str:
+                out = []
+                for ln in text.splitlines():
+                    try:
+                        j = json.loads(ln)
+                        for kk in ("t2q.fusion_mode", "t2q.alpha_semantic"):
+                            j.pop(kk, None)
+                            if isinstance(j.get("t2"), dict):
+                                j["t2"].pop(kk, None)
+                        out.append(json.dumps(j, sort_keys=False, ensure_ascii=False))
+                    except Exception:  # noqa: BLE001
+                        out.append(ln)
+                return "\n".join(out) + ("\n" if text.endswith("\n") else "")
+            for n in CANON:
+                a["logs"][n], b["logs"][n] = _strip(a["logs"][n]), _strip(b["logs"][n])
         if not boot_loaded:
             for n in CANON:
                 if a["logs"][n] != b["logs"][n]:
